@@ -455,6 +455,29 @@ func checkC06(c *Check) {
 			r6.AddAt(Undecided, "C "+name, "-", "function not found")
 			continue
 		}
+		// the walk may live in a helper the function calls (one level): analyse the function that contains it
+		hasWalk := func(g *CFunc) bool {
+			for _, st := range g.Body.Inner {
+				if st.Kind == "WhileStmt" && len(callsIn2(st, "utf8_num_bytes")) > 0 {
+					return true
+				}
+			}
+			return false
+		}
+		if !hasWalk(f) {
+			var helper *CFunc
+			f.Body.walk(func(m *CNode) bool {
+				if m.Kind == "CallExpr" && helper == nil {
+					if g := P.Funcs[m.calleeName()]; g != nil && strings.HasPrefix(g.Unit, "lib/runtime/") && hasWalk(g) {
+						helper = g
+					}
+				}
+				return true
+			})
+			if helper != nil {
+				f = helper
+			}
+		}
 		// statements of the body in order: a while loop stepping by utf8_num_bytes, then (next statement) if (str->str[i] == 0) ddp_runtime_error
 		okc := false
 		early := 0
